@@ -80,6 +80,8 @@ mutual
       if D.contains lim && (scopedStmts D body).isSome && (scopedStmts D els).isSome then some D else none
     | .call buf _ base params =>
       if D.contains buf && allIn D (readsBase base) && params.all (fun kv => allIn D (readsE kv.2)) then some D else none
+    | .appendCss buf e => if D.contains buf && allIn D (readsE e) then some D else none
+    | .debuggerS => some D
     | .pluralS e cases dflt =>
       if allIn D (readsE e) && scopedPlural D cases && (scopedStmts D dflt).isSome then some D else none
   def scopedStmts (D : List Bytes) : JsStmts → Option (List Bytes)
@@ -517,8 +519,20 @@ mutual
       refine ⟨D', a1, ?_, a3⟩
       intro f hf kv hkv
       exact a2 f (List.mem_of_mem_tail hf) kv hkv
-    | .css .., _, _, _, _, h, _, _, _ => by simp [toCmd] at h
-    | .debugger .., _, _, _, _, h, _, _, _ => by simp [toCmd] at h
+    | .css p none suffix, buf, sc, r, D, h, hs, hc, hb => by
+      simp only [toCmd, Option.some.injEq] at h; subst h
+      exact ⟨D, by simp only [scopedStmts_one, scopedStmt, hb, if_true], hc, Sub.refl D⟩
+    | .css p (some e) suffix, buf, sc, r, D, h, hs, hc, hb => by
+      simp only [toCmd] at h
+      split at h
+      · rename_i j hj
+        simp only [Option.some.injEq] at h; subst h
+        have hb' : buf ∈ D := by simpa using hb
+        exact ⟨D, by simp [scopedStmts, JsStmts.one, scopedStmt, hb', toAst_reads D sc hc e j hj], hc, Sub.refl D⟩
+      · cases h
+    | .debugger p, buf, sc, r, D, h, hs, hc, hb => by
+      simp only [toCmd, Option.some.injEq] at h; subst h
+      exact ⟨D, by simp only [scopedStmts_one, scopedStmt], hc, Sub.refl D⟩
     | .log .., _, _, _, _, h, _, _, _ => by simp [toCmd] at h
     | .switch p value cases, buf, sc, r, D, h, hs, hc, hb => by
       unfold toCmd at h
